@@ -91,11 +91,19 @@ def branchStr : Branch → String
   | .nested => "nested" | .optional => "optional" | .union => "union" | .enum => "enum" | .list => "list"
   | .tuple => "tuple" | .bool => "bool" | .plain => "plain"
 
+def postStr : PostK → String
+  | .enumLookup => "enum" | .toTuple => "to_tuple" | .same => "same" | .toList => "to_list" | .optTuple => "opt_tuple"
+  | .callCls _ => "call_cls" | .callFails => "call_fails"
+
 def kindJson (k : FieldKind) : Json :=
   Json.mkObj [("branch", Json.str (branchStr k.branch)), ("required", Json.bool k.required), ("nargs", nargsJson k.nargs),
               ("conv", match k.conv with | some c => convJson c | Option.none => Json.null),
               ("choices", match k.choices with | some n => jstr n | Option.none => Json.null),
               ("callable", Json.bool (!notCallable k.conv))]
+
+/-- options digest plus the `postprocess` arm -/
+def kindJsonA (a : Ann) (d : Dflt) : Json :=
+  (kindJson (kind a d)).setObjVal! "post" (Json.str (postStr (postBranch a)))
 
 def parseDflt : String → R Dflt
   | "missing" => .ok .missing
@@ -152,7 +160,7 @@ def opResolve (c : Json) : R Json := do
 def opKind (c : Json) : R Json := do
   let a ← parseAnn (← obj c "ann")
   let d ← parseDflt (← str c "dflt")
-  return kindJson (kind a d)
+  return kindJsonA a d
 
 /-- op `annot.fields`: {chain:[[name…]…]} ↦ names and defining-class index of the most derived class's fields -/
 def opFields (c : Json) : R Json := do
@@ -188,6 +196,7 @@ def parseStyle : String → R Style
   | "builtin" => .ok (.live .builtin)
   | "pep604" => .ok (.live .pep604)
   | "post_typing" => .ok (.postponed .typing)
+  | "post_builtin" => .ok (.postponed .builtin)
   | "post_604" => .ok (.postponed .pep604)
   | s => .error s!"bad style {s}"
 
@@ -217,7 +226,7 @@ def e2eStyle (st : Style) (classes : List (String × List (String × TyExpr × D
   let cls := results.map (fun (x : String × List (String × Str × ROut × Dflt)) =>
     Json.mkObj [("name", Json.str x.1), ("fields", Json.arr (x.2.map (fun (y : String × Str × ROut × Dflt) =>
       Json.mkObj [("name", Json.str y.1), ("text", jstr y.2.1), ("type", routJson y.2.2.1),
-                  ("kind", match y.2.2.1 with | ROut.ok a => kindJson (kind a y.2.2.2) | ROut.raise _ => Json.null)])).toArray)])
+                  ("kind", match y.2.2.1 with | ROut.ok a => kindJsonA a y.2.2.2 | ROut.raise _ => Json.null)])).toArray)])
   Json.mkObj [("setup", Json.str setup), ("classes", Json.arr cls.toArray)]
 
 /-- op `annot.e2e`: {styles:[…], classes:[{name, fields:[{name, ty, dflt}]}], chain:[[name…]…]} ↦ per style, class and
